@@ -45,7 +45,7 @@ class Env:
             raise exc(f"injected at callback #{self.count} {label}")
 
 
-EXC = {"ValueError": ValueError, "RuntimeError": RuntimeError, "KeyboardInterrupt": KeyboardInterrupt}
+EXC = {"ValueError": ValueError, "RuntimeError": RuntimeError, "KeyboardInterrupt": KeyboardInterrupt, "TypeError": TypeError}
 
 CONFIGS = {
     # name: (path, sizes, E, hermitian)
@@ -56,6 +56,7 @@ CONFIGS = {
     "bd-main-21fd": ("block_diagonalize-fd", (2, 1), (0, 1, 3), True),
     "bd-nh-22": ("block_diagonalize", (2, 2), (0, 1, 3, 7), False),
     "bd-impl-23": ("block_diagonalize-implicit", (2,), (0, 1, 3, 7, 12), True),
+    "bd-arr-22": ("block_diagonalize-arrays", (2, 2), (0, 1, 3, 7), True),
 }
 
 
@@ -101,6 +102,39 @@ def build(cfgname, env):
             operator=op,
         )
         return series, {"H_tilde": series["H_tilde"], "U": series["U"], "U†": series["U†"]}
+
+    if path == "block_diagonalize-arrays":
+        # blocks are instances of an ndarray subclass whose matrix product is a fault point; the library's
+        # own multiplication operator is used untouched
+        class FaultyArray(np.ndarray):
+            def __matmul__(self, other):
+                env.point(("M",))
+                return np.ndarray.__matmul__(self, other)
+
+            def __rmatmul__(self, other):
+                env.point(("M",))
+                return np.ndarray.__rmatmul__(self, other)
+
+        def evb(*index):
+            env.point(("H",) + index)
+            i, j, n = index
+            if n == 0:
+                return np.diag(np.array(E[off[i] : off[i + 1]], float)).view(FaultyArray) if i == j else zero
+            if n in (1, 2):
+                return (h1 if n == 1 else h2)[off[i] : off[i + 1], off[j] : off[j + 1]].copy().view(FaultyArray)
+            return zero
+
+        Hb = BlockSeries(eval=evb, shape=(nb, nb), n_infinite=1, name="Hb")
+        Ht, U, Ui = block_diagonalize(Hb, hermitian=herm)
+        scope = Ht.eval.__globals__
+        inner = scope["solve_sylvester"]
+
+        def ssb(Y, index):
+            env.point(("S",) + tuple(index))
+            return inner(Y, index)
+
+        scope["solve_sylvester"] = ssb
+        return scope["series"], {"H_tilde": Ht, "U": U, "U†": Ui}
 
     # block_diagonalize paths: scalar lazily defined Hamiltonian + wrapped default solver
     from scipy import sparse
@@ -160,6 +194,7 @@ REQUESTS = {
     "bd-main-21fd": [("H_tilde", (0, 0, 3)), ("U", (0, 0, 3))],
     "bd-nh-22": [("H_tilde", (1, 1, 3)), ("U†", (0, 1, 3))],
     "bd-impl-23": [("H_tilde", (0, 0, 3)), ("U", (0, 1, 3)), ("H_tilde", (1, 1, 2))],
+    "bd-arr-22": [("H_tilde", (0, 0, 3)), ("U", (0, 1, 3))],
 }
 
 
@@ -180,8 +215,83 @@ def clean_run(cfgname, req):
     return env.count - c0, c0
 
 
+def run_definition_fault(case):
+    """Fault inside a Hamiltonian-term callback while the computation is being *defined*; the same
+    input series is then used for a second definition, which must behave like an undisturbed one."""
+    from pymablock import block_diagonalize
+    from pymablock.series import PENDING, BlockSeries, zero
+
+    form, k, excname = case["form"], case["k"][0], case["exc"]
+    exc = EXC[excname]
+    E = (0, 1, 3, 7)
+    sizes = (2, 2)
+    off = [0, 2, 4]
+    h1 = herm_matrix(4, 11, True)
+    env = Env()
+
+    def make():
+        if form == "block":
+            def ev(*index):
+                env.point(("H",) + index)
+                i, j, n = index
+                if n == 0:
+                    return np.diag(np.array(E[off[i] : off[i + 1]], float)) if i == j else zero
+                return h1[off[i] : off[i + 1], off[j] : off[j + 1]] if n == 1 else zero
+
+            return BlockSeries(eval=ev, shape=(2, 2), n_infinite=1, name="Hb"), {}
+
+        def evs(n):
+            env.point(("H", n))
+            if n == 0:
+                return np.diag(np.array(E, float))
+            return h1.copy() if n == 1 else zero
+
+        return BlockSeries(eval=evs, shape=(), n_infinite=1, name="Hs"), dict(subspace_indices=[0, 0, 1, 1])
+
+    V = []
+    # clean values
+    Hc, kw = make()
+    clean = block_diagonalize(Hc, **kw)
+    cleanv = {(w, i, j, n): fingerprint(clean[w][i, j, n]) for w in range(3) for i in range(2) for j in range(2) for n in range(4)}
+    ndef = env.count  # includes the clean evaluation; recount for definition only
+    env2 = Env()
+    env = env2
+    H, kw = make()
+    env.fire[k] = exc
+    fired = False
+    try:
+        block_diagonalize(H, **kw)
+    except BaseException as e:  # noqa: BLE001
+        fired = isinstance(e, exc) or "injected" in str(e) or "injected" in str(getattr(e, "__cause__", ""))
+        if not isinstance(e, exc):
+            V.append(f"definition fault {excname} at callback {k} surfaced as {type(e).__name__}")
+    env.fire.clear()
+    if not fired:
+        return dict(violations=[dict(what=w, key=None) for w in V], nontrivial=False, outcome="definition/not-fired", sample=case)
+    stores = collect_stores([H])
+    for name, o in stores:
+        if hasattr(o, "_data") and any(v is PENDING for v in o._data.values()):
+            V.append(f"PENDING marker left in the input series {name} after a fault during the definition")
+    try:
+        outs = block_diagonalize(H, **kw)
+        for key_, fp in cleanv.items():
+            w, i, j, n = key_
+            if fingerprint(outs[w][i, j, n]) != fp:
+                V.append(f"after a definition-time fault, element {key_} of a second definition on the same input differs from the undisturbed value")
+                break
+    except BaseException as e:  # noqa: BLE001
+        V.append(f"second definition on the same input series raises {type(e).__name__}: {str(e)[:100]}")
+    tag = f"[definition fault form={form} {excname} at callback {k}]"
+    return dict(violations=[dict(what=f"{w} {tag}", key=None) for w in V[:3]], nontrivial=True, outcome="definition/" + ("bad" if V else "ok"),
+                stats=dict(faults_injected=1), sample=case)
+
+
 def cases(tier, seed):
     out = []
+    for form in ("block", "scalar"):
+        for exc in EXC:
+            for k in range(1, 9):
+                out.append(dict(cfg="definition", form=form, req=["definition", []], exc=exc, k=[k], K=8))
     double_K = 40 if tier == "quick" else 120
     cfgs = list(CONFIGS)
     for cfgname in cfgs:
@@ -228,6 +338,8 @@ def run_case(case):
     from pymablock.series import PENDING
 
     cfgname = case["cfg"]
+    if cfgname == "definition":
+        return run_definition_fault(case)
     req = (case["req"][0], tuple(case["req"][1]))
     exc = EXC[case["exc"]]
     V = []
